@@ -1595,4 +1595,322 @@ theorem pl_anisou (k : Nat) (a : PdbAtom) (u : List Int) (rest : List Str) (st :
   simp
 
 
+
+theorem other_ter : pdbOtherRecords.contains kwTER = true := by decide
+theorem other_end : pdbOtherRecords.contains kwEND = true := by decide
+
+/-- a record whose name is accepted and ignored -/
+theorem pl_other (kw R : Str) (hk : IsTok kw) (hc : pdbOtherRecords.contains kw = true)
+    (h1 : kw ≠ kwTITLE) (h2 : kw ≠ kwCRYST1) (h3 : ¬ (kw = kwSCALE '1' ∨ kw = kwSCALE '2' ∨ kw = kwSCALE '3'))
+    (h4 : ¬ (kw = kwATOM ∨ kw = kwHETATM)) (h5 : ¬ (kw = kwSIGATM ∨ kw = kwANISOU ∨ kw = kwSIGUIJ))
+    (rest : List Str) (st : PdbSt) :
+    pdbLoop ((kw ++ ' ' :: R) :: rest) st = pdbLoop rest st := by
+  have hs : ∀ L : Str, (L = kw ++ ' ' :: R ∨ L = padRight 80 (kw ++ ' ' :: R)) → ∃ ws, splitWs L = kw :: ws := by
+    intro L hL
+    rcases hL with rfl | rfl
+    · rw [splitWs_tok_ws hk isWs_space]; exact ⟨_, rfl⟩
+    · unfold padRight; rw [splitWs_append_allWs (AllWs_replicate _), splitWs_tok_ws hk isWs_space]; exact ⟨_, rfl⟩
+  have hnb : (strip (kw ++ ' ' :: R)).isEmpty = false := by
+    obtain ⟨ws, h⟩ := hs _ (Or.inl rfl)
+    exact strip_ne_of_split (by rw [h]; simp)
+  rw [pdbLoop, if_neg (by simp [hnb])]
+  by_cases hl : (kw ++ ' ' :: R).length < 80
+  · obtain ⟨ws, h⟩ := hs _ (Or.inr rfl)
+    simp only [hl, if_true, h]
+    unfold pdbRecord
+    rw [if_neg h1, if_neg h2, if_neg h3, if_neg h4, if_neg h5, if_pos hc]
+  · obtain ⟨ws, h⟩ := hs _ (Or.inl rfl)
+    simp only [hl, if_false, h]
+    unfold pdbRecord
+    rw [if_neg h1, if_neg h2, if_neg h3, if_neg h4, if_neg h5, if_pos hc]
+
+theorem pl_ter (n : Nat) (rest : List Str) (st : PdbSt) : pdbLoop (pdbTerLine n :: rest) st = pdbLoop rest st := by
+  have e : pdbTerLine n = kwTER ++ ' ' :: (sp 2 ++ fmtI 5 ((n : Int) + 1) ++ sp 6 ++ sp 3 ++ sp 1 ++ sp 1 ++ fmtI 4 1 ++ sp 1 ++ padLeft 53 (sp 1)) := by
+    simp [pdbTerLine, sp, List.replicate]
+  rw [e]
+  exact pl_other kwTER _ ⟨by decide, by intro c hc; revert c; decide⟩ other_ter (by decide) (by decide) (by decide)
+    (by decide) (by decide) rest st
+
+theorem pl_end (rest : List Str) (st : PdbSt) : pdbLoop (padRight 80 kwEND :: rest) st = pdbLoop rest st := by
+  have e : padRight 80 kwEND = kwEND ++ ' ' :: sp 76 := by decide
+  rw [e]
+  exact pl_other kwEND _ ⟨by decide, by intro c hc; revert c; decide⟩ other_end (by decide) (by decide) (by decide)
+    (by decide) (by decide) rest st
+
+/-- TITLE record of a title that fits one record -/
+theorem pl_title (t : Str) (ht : t.length ≤ 60) (rest : List Str) (st : PdbSt) :
+    pdbLoop (pdbTitleLine 0 t :: rest) st = pdbLoop rest { st with title := rstrip t } := by
+  have e : pdbTitleLine 0 t = kwTITLE ++ (sp 3 ++ (sp 2 ++ (t ++ sp (70 - t.length)))) := by
+    simp only [pdbTitleLine, if_true, padRight, List.append_assoc, List.length_append, length_sp]
+    have : kwTITLE.length = 5 := rfl
+    rw [this]
+    have : 80 - (5 + (3 + (2 + t.length))) = 70 - t.length := by omega
+    rw [this]; rfl
+  have hlen : (pdbTitleLine 0 t).length = 80 := by
+    rw [e]; simp only [List.length_append, length_sp]
+    have h5 : kwTITLE.length = 5 := rfl
+    rw [h5]; omega
+  have hfirst : ∃ ws, splitWs (pdbTitleLine 0 t) = kwTITLE :: ws := by
+    rw [e, splitWs_tok_blanks ⟨by decide, by intro c hc; revert c; decide⟩ (AllWs_sp 3) (sp_ne_nil (by omega))]
+    exact ⟨_, rfl⟩
+  obtain ⟨ws, hws⟩ := hfirst
+  have hnb : (strip (pdbTitleLine 0 t)).isEmpty = false := strip_ne_of_split (by rw [hws]; simp)
+  have h810 : slice 8 10 (pdbTitleLine 0 t) = sp 2 := by
+    rw [e]
+    have lT : kwTITLE.length = 5 := rfl
+    skipcol lT; skipcol (length_sp 3)
+    exact slice_take (length_sp 2)
+  have hdrop : (pdbTitleLine 0 t).drop 10 = t ++ sp (70 - t.length) := by
+    rw [e]
+    have : kwTITLE ++ (sp 3 ++ (sp 2 ++ (t ++ sp (70 - t.length)))) = (kwTITLE ++ sp 3 ++ sp 2) ++ (t ++ sp (70 - t.length)) := by
+      simp only [List.append_assoc]
+    rw [this, List.drop_left' (by simp [length_sp]; rfl)]
+  rw [pdbLoop, if_neg (by simp [hnb])]
+  simp only [hlen, Nat.lt_irrefl, if_false, hws]
+  unfold pdbRecord
+  rw [if_pos rfl, h810, hdrop, rstrip_append_allWs (AllWs_sp _)]
+  have : (strip (sp 2)).isEmpty = true := by decide
+  simp [this]
+
+
+
+theorem pl_cryst (c : Cell6) (hc : pdbCellOk c = true) (rest : List Str) (st : PdbSt) :
+    pdbLoop (pdbCrystLine c :: rest) st = pdbLoop rest { st with cell := some (quantPdbCell c) } := by
+  simp only [pdbCellOk, Bool.and_eq_true] at hc
+  obtain ⟨⟨⟨⟨⟨ha, hb⟩, hcc⟩, hal⟩, hbe⟩, hga⟩ := hc
+  have lK : kwCRYST1.length = 6 := rfl
+  have lA8 := length_fmtF_of_fits ha
+  have lA : (fmtF 9 3 c.a).length = 9 := by rw [fmtF_lead_blank ha]; simp [lA8]
+  have lB := length_fmtF_of_fits hb
+  have lC := length_fmtF_of_fits hcc
+  have lAl := length_fmtF_of_fits hal
+  have lBe := length_fmtF_of_fits hbe
+  have lGa := length_fmtF_of_fits hga
+  have l1 : [' '].length = 1 := rfl
+  have e : pdbCrystLine c = kwCRYST1 ++ (fmtF 9 3 c.a ++ (fmtF 9 3 c.b ++ (fmtF 9 3 c.c ++ (fmtF 7 2 c.al ++ (fmtF 7 2 c.be ++ (fmtF 7 2 c.ga ++ sp 26)))))) := by
+    simp only [pdbCrystLine, padRight, List.length_append, lK, lA, lB, lC, lAl, lBe, lGa, List.append_assoc]
+    rfl
+  have hlen : (pdbCrystLine c).length = 80 := by
+    rw [e]; simp only [List.length_append, lK, lA, lB, lC, lAl, lBe, lGa, length_sp]
+  have hfirst : ∃ ws, splitWs (pdbCrystLine c) = kwCRYST1 :: ws := by
+    rw [e, fmtF_lead_blank ha]
+    simp only [List.cons_append]
+    rw [splitWs_tok_ws (t := kwCRYST1) ⟨by decide, by intro c hc; revert c; decide⟩ isWs_space]
+    exact ⟨_, rfl⟩
+  obtain ⟨ws, hws⟩ := hfirst
+  have hnb : (strip (pdbCrystLine c)).isEmpty = false := strip_ne_of_split (by rw [hws]; simp)
+  have s1 : slice 7 15 (pdbCrystLine c) = fmtF 8 3 c.a := by
+    rw [e]; skipcol lK
+    rw [fmtF_lead_blank ha]
+    have : (' ' :: fmtF 8 3 c.a) = [' '] ++ fmtF 8 3 c.a := rfl
+    rw [this, List.append_assoc]
+    skipcol l1
+    exact slice_take lA8
+  have s2 : slice 15 24 (pdbCrystLine c) = fmtF 9 3 c.b := by
+    rw [e]; skipcol lK; skipcol lA; exact slice_take lB
+  have s3 : slice 24 33 (pdbCrystLine c) = fmtF 9 3 c.c := by
+    rw [e]; skipcol lK; skipcol lA; skipcol lB; exact slice_take lC
+  have s4 : slice 33 40 (pdbCrystLine c) = fmtF 7 2 c.al := by
+    rw [e]; skipcol lK; skipcol lA; skipcol lB; skipcol lC; exact slice_take lAl
+  have s5 : slice 40 47 (pdbCrystLine c) = fmtF 7 2 c.be := by
+    rw [e]; skipcol lK; skipcol lA; skipcol lB; skipcol lC; skipcol lAl; exact slice_take lBe
+  have s6 : slice 47 54 (pdbCrystLine c) = fmtF 7 2 c.ga := by
+    rw [e]; skipcol lK; skipcol lA; skipcol lB; skipcol lC; skipcol lAl; skipcol lBe; exact slice_take lGa
+  rw [pdbLoop, if_neg (by simp [hnb])]
+  simp only [hlen, Nat.lt_irrefl, if_false, hws]
+  unfold pdbRecord
+  rw [if_neg (by decide), if_pos rfl, s1, s2, s3, s4, s5, s6]
+  simp only [pyFloat_fmtF]
+  rfl
+
+
+
+theorem length_natDigits_le (m : Nat) (hm : 1 ≤ m) : ∀ n : Nat, n < 10 ^ m → (natDigits n).length ≤ m := by
+  induction m with
+  | zero => omega
+  | succ m ih =>
+    intro n hn
+    unfold natDigits
+    split
+    · simp
+    · rename_i h10
+      have hm1 : 1 ≤ m := by
+        by_contra hc
+        have : m = 0 := by omega
+        subst this; simp at hn; omega
+      have : n / 10 < 10 ^ m := by
+        rw [Nat.div_lt_iff_lt_mul (by norm_num)]; rw [pow_succ] at hn; exact hn
+      have := ih hm1 (n / 10) this
+      simp; omega
+
+theorem fitsI_nat (w : Nat) (hw : 1 ≤ w) (n : Nat) (hn : n < 10 ^ w) : fitsI w (n : Int) = true := by
+  have : fmtIbody (n : Int) = natDigits n := by
+    have hneg : ¬ ((n : Int) < 0) := by omega
+    simp [fmtIbody, signStr, hneg]
+  simp only [fitsI, decide_eq_true_eq, this]
+  exact length_natDigits_le w hw n hn
+
+theorem titleChunks_short (t : Str) (hne : t ≠ []) (hl : t.length ≤ 60) : titleChunks (t.length + 1) t = [t] := by
+  have h1 : t.isEmpty = false := isEmpty_false_of_ne hne
+  have h2 : ¬ (t.length > 60) := by omega
+  rw [titleChunks]
+  simp only [h1, Bool.false_eq_true, if_false, h2, List.take_length, List.drop_length]
+  cases ht : t.length with
+  | zero => simp [titleChunks]
+  | succ n => simp [titleChunks]
+
+theorem pl_atoms (as : List PdbAtom) : ∀ (k : Nat) (rest : List Str) (st : PdbSt),
+    as.all pdbAtomOk = true → k + as.length ≤ 9999 →
+    pdbLoop (pdbAtomsLines k as ++ rest) st =
+      pdbLoop rest { st with ratoms := (as.map quantPdbAtom).reverse ++ st.ratoms } := by
+  induction as with
+  | nil => intro k rest st _ _; simp [pdbAtomsLines]
+  | cons a as ih =>
+    intro k rest st hall hk
+    simp only [List.all_cons, Bool.and_eq_true] at hall
+    obtain ⟨ha, has⟩ := hall
+    simp only [List.length_cons] at hk
+    have hk4 : fitsI 4 ((k + 1 : Nat) : Int) = true := fitsI_nat 4 (by omega) (k + 1) (by omega)
+    have hk5 : fitsI 5 ((k + 1 : Nat) : Int) = true := fitsI_nat 5 (by omega) (k + 1) (by omega)
+    have ih' := ih (k + 1) rest
+    simp only [pdbAtomsLines, pdbAtomLines]
+    cases hu : a.aniso with
+    | none =>
+      simp only [List.cons_append, List.nil_append]
+      rw [pl_atom (k + 1) a _ st hk5 ha, ih' _ has (by omega)]
+      simp [quantPdbAtom, hu]
+    | some u =>
+      have hua : pdbAnisoOk u = true := by
+        simp only [pdbAtomOk, Bool.and_eq_true, hu] at ha; exact ha.2
+      simp only [List.cons_append, List.nil_append]
+      rw [pl_atom (k + 1) a _ st hk5 ha, pl_anisou (k + 1) a u _ _ _ _ rfl hk4 ha hua, ih' _ has (by omega)]
+      simp [quantPdbAtom, hu]
+
+theorem pl_titles (t : Str) (htl : t.length ≤ 60) (rest : List Str) (st : PdbSt) :
+    pdbLoop (pdbTitleLines t ++ rest) st =
+      pdbLoop rest { st with title := if t = [] then st.title else rstrip t } ∧
+    quantPdbTitle t = if t = [] then [] else rstrip t := by
+  by_cases ht : t = []
+  · simp [pdbTitleLines, quantPdbTitle, ht, titleChunks]
+  · have := titleChunks_short t ht htl
+    simp only [pdbTitleLines, quantPdbTitle, this, ht, if_false]
+    simp [pl_title t htl]
+
+/-- line level: `parseLines(toLines(s))` for PDB -/
+theorem parsePdb_writePdb (d : PdbS) (h : reprPdb d = true) : parsePdb (writePdb d) = .ok (quantPdb d) := by
+  obtain ⟨title, cell, atoms⟩ := d
+  simp only [reprPdb, rangePdb, Bool.and_eq_true, decide_eq_true_eq] at h
+  obtain ⟨⟨⟨⟨_, htl⟩, hc⟩, ha⟩, hn⟩ := h
+  unfold parsePdb writePdb
+  cases cell with
+  | none =>
+    simp only [List.append_assoc, List.nil_append]
+    rw [(pl_titles title htl _ _).1, pl_atoms atoms 0 _ _ ha (by omega)]
+    rw [pl_ter, pl_end, pdbLoop]
+    simp only [quantPdb, (pl_titles title htl [] ⟨[], none, []⟩).2]
+    simp
+  | some c =>
+    simp only at hc
+    simp only [List.append_assoc, List.cons_append, List.nil_append]
+    rw [(pl_titles title htl _ _).1, pl_cryst c hc, pl_atoms atoms 0 _ _ ha (by omega)]
+    rw [pl_ter, pl_end, pdbLoop]
+    simp only [quantPdb, (pl_titles title htl [] ⟨[], none, []⟩).2]
+    simp
+
+
+
+theorem NoNL_slice (i j : Nat) {s : Str} (h : NoNL s) : NoNL (slice i j s) :=
+  NoNL_sublist ((List.take_sublist _ _).trans (List.drop_sublist _ _)) h
+
+theorem NoNL_elem {e : Str} (h : elemOk e = true) : NoNL e := NoNL_of_NoWs (IsTok_of_elemOk h).2
+
+theorem NoNL_pdbAtomLine (k : Nat) (a : PdbAtom) (ha : pdbAtomOk a = true) : NoNL (pdbAtomLine k a) := by
+  simp only [pdbAtomOk, Bool.and_eq_true, decide_eq_true_eq] at ha
+  obtain ⟨⟨⟨⟨⟨⟨⟨⟨⟨hn, _⟩, he⟩, _⟩, _⟩, _⟩, _⟩, _⟩, _⟩, _⟩ := ha
+  unfold pdbAtomLine
+  have hm : NoNL pdbMid := by intro c hc; revert c; decide
+  have hk : NoNL kwATOM := by intro c hc; revert c; decide
+  exact NoNL_append hk (NoNL_append (NoNL_sp _) (NoNL_append (NoNL_fmtI _ _) (NoNL_append (NoNL_sp _)
+    (NoNL_append (NoNL_padRight 4 (NoNL_elem hn)) (NoNL_append hm (NoNL_append (NoNL_fmtF _ _ _)
+    (NoNL_append (NoNL_fmtF _ _ _) (NoNL_append (NoNL_fmtF _ _ _) (NoNL_append (NoNL_fmtF _ _ _)
+    (NoNL_append (NoNL_fmtF _ _ _) (NoNL_append (NoNL_sp _) (NoNL_append (NoNL_padLeft 2 (NoNL_elem he)) (NoNL_sp _)))))))))))))
+
+theorem NoNL_flatten {ls : List Str} (h : ∀ l ∈ ls, NoNL l) : NoNL ls.flatten := by
+  intro c hc
+  obtain ⟨l, hl, hcl⟩ := List.mem_flatten.1 hc
+  exact h l hl c hcl
+
+theorem NoNL_pdbAnisouLine (L : Str) (hL : NoNL L) (u : List Int) : NoNL (pdbAnisouLine L u) := by
+  unfold pdbAnisouLine
+  have hk : NoNL kwANISOU := by intro c hc; revert c; decide
+  refine NoNL_append hk (NoNL_append (NoNL_slice _ _ hL) (NoNL_append (NoNL_sp _) (NoNL_append (NoNL_flatten ?_)
+    (NoNL_append (NoNL_sp _) (NoNL_slice _ _ hL)))))
+  intro l hl
+  obtain ⟨n, _, rfl⟩ := List.mem_map.1 hl
+  exact NoNL_fmtI _ _
+
+theorem NoNL_pdbAtomsLines (as : List PdbAtom) (h : as.all pdbAtomOk = true) :
+    ∀ k, ∀ l ∈ pdbAtomsLines k as, NoNL l := by
+  induction as with
+  | nil => intro k l hl; cases hl
+  | cons a as ih =>
+    intro k l hl
+    simp only [List.all_cons, Bool.and_eq_true] at h
+    simp only [pdbAtomsLines, List.mem_append] at hl
+    rcases hl with hl | hl
+    · have hA := NoNL_pdbAtomLine (k + 1) a h.1
+      unfold pdbAtomLines at hl
+      cases hu : a.aniso with
+      | none => simp [hu] at hl; subst hl; exact hA
+      | some u =>
+        simp [hu] at hl
+        rcases hl with rfl | rfl
+        · exact hA
+        · exact NoNL_pdbAnisouLine _ hA u
+    · exact ih h.2 (k + 1) l hl
+
+theorem NoNL_pdbTitleLines (t : Str) (ht : lineOk t = true) (htl : t.length ≤ 60) : ∀ l ∈ pdbTitleLines t, NoNL l := by
+  intro l hl
+  by_cases hne : t = []
+  · simp [pdbTitleLines, hne, titleChunks] at hl
+  · have := titleChunks_short t hne htl
+    simp only [pdbTitleLines, this] at hl
+    simp at hl; subst hl
+    unfold pdbTitleLine
+    have hk : NoNL kwTITLE := by intro c hc; revert c; decide
+    exact NoNL_padRight 80 (NoNL_append (NoNL_append (NoNL_append hk (NoNL_sp _)) (by simp; exact NoNL_sp _)) (NoNL_of_lineOk ht))
+
+/-- string level: `readStr(writeStr("pdb"), "pdb")` -/
+theorem roundtrip_pdb (d : PdbS) (h : reprPdb d = true) : parseTextPdb (writeTextPdb d) = .ok (quantPdb d) := by
+  have h' := h
+  simp only [reprPdb, rangePdb, Bool.and_eq_true, decide_eq_true_eq] at h'
+  obtain ⟨⟨⟨⟨ht, htl⟩, hc⟩, ha⟩, hn⟩ := h'
+  unfold parseTextPdb writeTextPdb
+  have hne : writePdb d ≠ [] := by simp [writePdb]
+  rw [ofText_toText (writePdb d) hne]
+  · exact parsePdb_writePdb d h
+  · intro l hl
+    simp only [writePdb, List.mem_append, List.mem_cons, List.not_mem_nil, or_false] at hl
+    rcases hl with ((hl | hl) | hl) | (rfl | rfl)
+    · exact NoNL_pdbTitleLines d.title ht htl l hl
+    · cases hd : d.cell with
+      | none => simp [hd] at hl
+      | some c =>
+        simp [hd] at hl; subst hl
+        unfold pdbCrystLine
+        have hk : NoNL kwCRYST1 := by intro c hc; revert c; decide
+        exact NoNL_padRight 80 (NoNL_append hk (NoNL_append (NoNL_fmtF _ _ _) (NoNL_append (NoNL_fmtF _ _ _)
+          (NoNL_append (NoNL_fmtF _ _ _) (NoNL_append (NoNL_fmtF _ _ _) (NoNL_append (NoNL_fmtF _ _ _) (NoNL_fmtF _ _ _)))))))
+    · exact NoNL_pdbAtomsLines d.atoms ha 0 l hl
+    · unfold pdbTerLine
+      have hk : NoNL kwTER := by intro c hc; revert c; decide
+      exact NoNL_append (NoNL_append (NoNL_append (NoNL_append (NoNL_append (NoNL_append (NoNL_append (NoNL_append
+        (NoNL_append hk (NoNL_sp _)) (NoNL_fmtI _ _)) (NoNL_sp _)) (NoNL_sp _)) (NoNL_sp _)) (NoNL_sp _)) (NoNL_fmtI _ _))
+        (NoNL_sp _)) (NoNL_padLeft 53 (NoNL_sp _))
+    · intro c hc; revert c; decide
+  · have : (writePdb d).getLast hne = padRight 80 kwEND := by
+      simp [writePdb]
+    rw [this]; decide
+
+
 end DS.Formats
